@@ -17,7 +17,7 @@ RECURSIVE Flat(_)
 Flat(s) == IF s = <<>> THEN "" ELSE Head(s) \o Flat(Tail(s))          \* stdout is one text
 Below(ds, a) == IF Len(ds) >= a THEN SubSeq(ds, 1, Len(ds) - a) ELSE <<>>
 Judge ==
-  LET r == S!SRun(Ev.toks, S!SBoot, Fuel(Ev.toks)) IN
+  LET r == S!SEval(Ev.toks, Fuel(Ev.toks)) IN
   IF r.skip THEN TRUE
   ELSE IF r.err = "timeout" THEN Ev.res \in {"limit", "ok"}          \* still running after the fuel: never a wrong early exit with an error
   ELSE IF r.err = "none" THEN
